@@ -188,3 +188,489 @@ Proof.
       rewrite app_length. cbn [length]. lia. }
     apply (sim_w_step c _ _ v Hs). exact H1.
 Qed.
+
+(** * (2) The A-test is the two-sample Hoeffding bound *)
+Local Open Scope R_scope.
+
+Lemma ln_inv_alpha_nonneg : forall alpha, 0 < alpha <= 1 -> 0 <= ln (1 / alpha).
+Proof.
+  intros alpha [H0 H1]. unfold Rdiv. rewrite Rmult_1_l, ln_Rinv by exact H0.
+  destruct H1 as [H1|H1].
+  - pose proof (ln_increasing alpha 1 H0 H1) as H. rewrite ln_1 in H. lra.
+  - subst alpha. rewrite ln_1. lra.
+Qed.
+
+Lemma hoeff_core : forall n1 n d L : R, 0 < n1 -> n1 < n -> 0 <= L ->
+  (sqrt ((n - n1) / (2 * n1 * n) * L) <= d <->
+   sqrt ((1 / n1 + 1 / (n - n1)) / 2 * L) <= n / (n - n1) * d).
+Proof.
+  intros n1 n d L H1 H2 HL.
+  assert (Hk : 0 < n / (n - n1)) by (apply Rdiv_lt_0_compat; lra).
+  assert (Ha : 0 <= (n - n1) / (2 * n1 * n) * L).
+  { apply Rmult_le_pos; [|exact HL]. left. apply Rdiv_lt_0_compat; [lra|].
+    apply Rmult_lt_0_compat; [|lra]. lra. }
+  replace ((1 / n1 + 1 / (n - n1)) / 2 * L)
+    with ((n / (n - n1) * (n / (n - n1))) * ((n - n1) / (2 * n1 * n) * L))
+    by (field; repeat split; lra).
+  rewrite (sqrt_mult (n / (n - n1) * (n / (n - n1)))); [|apply Rmult_le_pos; lra|exact Ha].
+  rewrite sqrt_square by lra.
+  split; intros H.
+  - apply Rmult_le_compat_l; [lra|exact H].
+  - apply Rmult_le_reg_l with (n / (n - n1)); [exact Hk|exact H].
+Qed.
+
+Theorem hddma_rule : forall (x z : mean_st RealA) (alpha : R),
+  (0 < m_n x)%Z -> (m_n x < m_n z)%Z -> 0 < alpha <= 1 ->
+  let n1 := IZR (m_n x) in let n := IZR (m_n z) in let n2 := (n - n1)%R in
+  let ybar := ((n * m_mean z - n1 * m_mean x) / n2)%R in
+  (check_incr x z alpha = true <->
+   (sqrt ((1 / n1 + 1 / n2) / 2 * ln (1 / alpha)) <= ybar - m_mean x)%R).
+Proof.
+  intros x z alpha Hx Hxz Ha n1 n n2 ybar.
+  assert (H1 : 0 < n1) by (apply IZR_lt; exact Hx).
+  assert (H2 : n1 < n) by (apply IZR_lt; exact Hxz).
+  unfold check_incr, hoeff_thr, one. cbn [leb sub mul div sqrt ln ofZ RealA num].
+  rewrite Rleb_true, !mult_IZR, minus_IZR. fold n1 n.
+  replace (ybar - m_mean x) with (n / (n - n1) * (m_mean z - m_mean x))
+    by (unfold ybar, n2; field; lra).
+  unfold n2. apply hoeff_core; [exact H1|exact H2|apply ln_inv_alpha_nonneg; exact Ha].
+Qed.
+
+Theorem hddma_rule_decr : forall (y z : mean_st RealA) (alpha : R),
+  (0 < m_n y)%Z -> (m_n y < m_n z)%Z -> 0 < alpha <= 1 ->
+  let n1 := IZR (m_n y) in let n := IZR (m_n z) in let n2 := (n - n1)%R in
+  let rest := ((n * m_mean z - n1 * m_mean y) / n2)%R in
+  (check_decr y z alpha = true <->
+   (sqrt ((1 / n1 + 1 / n2) / 2 * ln (1 / alpha)) <= m_mean y - rest)%R).
+Proof.
+  intros y z alpha Hy Hyz Ha n1 n n2 rest.
+  assert (H1 : 0 < n1) by (apply IZR_lt; exact Hy).
+  assert (H2 : n1 < n) by (apply IZR_lt; exact Hyz).
+  unfold check_decr, hoeff_thr, one. cbn [leb sub mul div sqrt ln ofZ RealA num].
+  rewrite Rleb_true, !mult_IZR, minus_IZR. fold n1 n.
+  replace (m_mean y - rest) with (n / (n - n1) * (m_mean y - m_mean z))
+    by (unfold rest, n2; field; lra).
+  unfold n2. apply hoeff_core; [exact H1|exact H2|apply ln_inv_alpha_nonneg; exact Ha].
+Qed.
+
+(** * (2b) closed forms of the W-test recursions *)
+Definition sum_f_R0' (f : nat -> R) (t : nat) : R := fold_right Rplus 0 (map f (seq 0 t)).
+
+Lemma sum_f_R0'_S : forall f t, sum_f_R0' f (S t) = sum_f_R0' f t + f t.
+Proof.
+  intros f t. unfold sum_f_R0'. rewrite seq_S, map_app. cbn [map plus].
+  change (fold_right Rplus 0) with Rsum. rewrite Rsum_snoc. reflexivity.
+Qed.
+
+Lemma geom_shift : forall q t,
+  sum_f_R0' (fun i => q ^ i) (S t) = 1 + q * sum_f_R0' (fun i => q ^ i) t.
+Proof.
+  intros q t. induction t as [|t IH].
+  - unfold sum_f_R0'. cbn [seq map fold_right pow]. lra.
+  - rewrite (sum_f_R0'_S _ (S t)). rewrite sum_f_R0'_S in IH |- *. cbn [pow]. lra.
+Qed.
+
+Lemma si_run_snoc : forall (lam : R) (vs : list R) v,
+  fold_left (si_update (A:=RealA) lam) (vs ++ [v]) si_init =
+  si_update (A:=RealA) lam (fold_left (si_update (A:=RealA) lam) vs si_init) v.
+Proof. intros lam vs v. rewrite fold_left_app. reflexivity. Qed.
+
+Theorem hddmw_ibc_closed : forall (lam : R) (vs : list R),
+  si_ibc (fold_left (si_update (A:=RealA) lam) vs si_init) =
+  (lam * lam * sum_f_R0' (fun i => ((1 - lam) * (1 - lam)) ^ i) (length vs) + ((1 - lam) * (1 - lam)) ^ (length vs))%R.
+Proof.
+  intros lam vs. induction vs as [|v vs IH] using rev_ind.
+  - unfold sum_f_R0', si_init, one. cbn [fold_left si_ibc length seq map fold_right pow ofZ RealA]. lra.
+  - rewrite si_run_snoc. unfold si_update at 1. cbn [si_ibc]. rewrite IH.
+    rewrite app_length. cbn [length]. replace (length vs + 1)%nat with (S (length vs)) by lia.
+    rewrite geom_shift. unfold one. cbn [add sub mul ofZ RealA num pow]. lra.
+Qed.
+
+Theorem hddmw_ewma_closed : forall (lam : R) (vs : list R),
+  si_mean (fold_left (si_update (A:=RealA) lam) vs si_init) = wsum (fun k => lam * (1 - lam) ^ k) vs.
+Proof.
+  intros lam vs. induction vs as [|v vs IH] using rev_ind.
+  - reflexivity.
+  - rewrite si_run_snoc. unfold si_update at 1. cbn [si_mean]. rewrite IH.
+    unfold one. cbn [add sub mul ofZ RealA num]. rewrite wsum_snoc.
+    rewrite (wsum_ext (fun k => lam * (1 - lam) ^ S k)
+                      (fun k => (1 - lam) * (lam * (1 - lam) ^ k)))
+      by (intros j; cbn [pow]; lra).
+    pose proof (wsum_scal (1 - lam) (fun k => lam * (1 - lam) ^ k) vs) as Hs.
+    cbv beta in Hs. rewrite Hs.
+    change ((1 - lam) ^ 0) with 1. lra.
+Qed.
+
+(** * (3) Mirror symmetry of the two-sided A-test *)
+Definition mpos (m m' : mean_st RealA) : Prop :=
+  (0 < m_n m)%Z /\ m_n m' = m_n m /\ m_mean m' = 1 - m_mean m.
+Definition mrel (m m' : mean_st RealA) : Prop :=
+  (m = mean_init /\ m' = mean_init) \/ mpos m m'.
+
+Lemma mrel_update : forall m m' v, mrel m m' -> mpos (mean_update m v) (mean_update m' (1 - v)).
+Proof.
+  intros m m' v [[-> ->]|(Hn & En & Em)]; unfold mpos, mean_update, incr_op.
+  - unfold mean_init, zero. cbn [m_n m_mean add sub div ofZ RealA num Z.add].
+    split; [lia|]. split; [reflexivity|]. field.
+  - cbn [m_n m_mean add sub div ofZ RealA num]. rewrite En, Em.
+    split; [lia|]. split; [reflexivity|].
+    assert (Hp : 0 < IZR (m_n m + 1)) by (apply IZR_lt; lia).
+    field. lra.
+Qed.
+
+Lemma first_cut_rel : forall cut cut' z z' : mean_st RealA,
+  mrel cut cut' -> mpos z z' -> mpos (first_cut cut z) (first_cut cut' z').
+Proof.
+  intros cut cut' z z' [[-> ->]|H] Hz; unfold first_cut.
+  - cbn [mean_init m_n Z.eqb]. exact Hz.
+  - destruct H as (Hn & En & Em). rewrite En.
+    destruct (m_n cut =? 0)%Z eqn:E; [apply Z.eqb_eq in E; lia|].
+    repeat split; assumption.
+Qed.
+
+Lemma cut_swap : forall ad (z z' x0 y0' : mean_st RealA),
+  mpos z z' -> mpos x0 y0' -> mpos (cut_up ad z x0) (cut_dn ad z' y0').
+Proof.
+  intros ad z z' x0 y0' Hz Hx. unfold cut_up, cut_dn.
+  pose proof Hz as (_ & Ezn & Ezm). pose proof Hx as (_ & Exn & Exm).
+  rewrite Ezn, Exn, Ezm, Exm. cbn [leb add sub RealA num].
+  destruct (Rleb_spec (m_mean z + hoeff_bound ad (m_n z)) (m_mean x0 + hoeff_bound ad (m_n x0))) as [H|H];
+  destruct (Rleb_spec (1 - m_mean x0 - hoeff_bound ad (m_n x0)) (1 - m_mean z - hoeff_bound ad (m_n z))) as [H'|H'];
+    try assumption; exfalso; lra.
+Qed.
+
+Lemma cut_swap' : forall ad (z z' y0 x0' : mean_st RealA),
+  mpos z z' -> mpos y0 x0' -> mpos (cut_dn ad z y0) (cut_up ad z' x0').
+Proof.
+  intros ad z z' y0 x0' Hz Hy. unfold cut_up, cut_dn.
+  pose proof Hz as (_ & Ezn & Ezm). pose proof Hy as (_ & Eyn & Eym).
+  rewrite Ezn, Eyn, Ezm, Eym. cbn [leb add sub RealA num].
+  destruct (Rleb_spec (m_mean y0 - hoeff_bound ad (m_n y0)) (m_mean z - hoeff_bound ad (m_n z))) as [H|H];
+  destruct (Rleb_spec (1 - m_mean z + hoeff_bound ad (m_n z)) (1 - m_mean y0 + hoeff_bound ad (m_n y0))) as [H'|H'];
+    try assumption; exfalso; lra.
+Qed.
+
+Lemma check_swap : forall (x y' z z' : mean_st RealA) a,
+  mpos x y' -> mpos z z' -> check_decr y' z' a = check_incr x z a.
+Proof.
+  intros x y' z z' a (_ & Exn & Exm) (_ & Ezn & Ezm). unfold check_decr, check_incr.
+  rewrite Exn, Ezn, Exm, Ezm. cbn [leb sub RealA num]. f_equal. lra.
+Qed.
+
+Lemma check_swap' : forall (y x' z z' : mean_st RealA) a,
+  mpos y x' -> mpos z z' -> check_incr x' z' a = check_decr y z a.
+Proof.
+  intros y x' z z' a (_ & Eyn & Eym) (_ & Ezn & Ezm). unfold check_decr, check_incr.
+  rewrite Eyn, Ezn, Eym, Ezm. cbn [leb sub RealA num]. f_equal. lra.
+Qed.
+
+Lemma side_swap : forall (c : hddma_cfg RealA) (x y' z z' : mean_st RealA), ha_two c = true ->
+  mpos x y' -> mpos z z' -> side_d c y' z' = side_i c x z.
+Proof.
+  intros c x y' z z' Ht Hx Hz. unfold side_d, side_i, side_cases. rewrite Ht.
+  rewrite !(check_swap x y' z z' _ Hx Hz).
+  destruct Hx as (_ & -> & _). destruct Hz as (_ & -> & _). reflexivity.
+Qed.
+
+Lemma side_swap' : forall (c : hddma_cfg RealA) (y x' z z' : mean_st RealA), ha_two c = true ->
+  mpos y x' -> mpos z z' -> side_i c x' z' = side_d c y z.
+Proof.
+  intros c y x' z z' Ht Hy Hz. unfold side_d, side_i, side_cases. rewrite Ht.
+  rewrite !(check_swap' y x' z z' _ Hy Hz).
+  destruct Hy as (_ & -> & _). destruct Hz as (_ & -> & _). reflexivity.
+Qed.
+
+Definition Mir (s s' : hddma_st RealA) : Prop :=
+  hn s' = hn s /\ hdrift s' = hdrift s /\ hwarning s' = hwarning s /\
+  mrel (hz s) (hz s') /\ mrel (hx s) (hy s') /\ mrel (hy s) (hx s').
+
+Lemma Mir_init : forall c, Mir (hddma_init c) (hddma_init c).
+Proof. intros c. unfold Mir, hddma_init. cbn [hn hx hy hz hdrift hwarning].
+  repeat split; left; split; reflexivity. Qed.
+
+Lemma Mir_step : forall (c : hddma_cfg RealA) s s' v, ha_two c = true ->
+  Mir s s' -> Mir (hddma_step c s v) (hddma_step c s' (1 - v)).
+Proof.
+  intros c s s' v Ht (Hn & _ & _ & Hz & Hx & Hy).
+  assert (Z : mpos (az s v) (az (A:=RealA) s' (1 - v))) by (apply mrel_update; exact Hz).
+  assert (X : mpos (ax c s v) (ay (A:=RealA) c s' (1 - v))).
+  { unfold ax, ay. rewrite Ht. apply cut_swap; [exact Z|]. apply first_cut_rel; assumption. }
+  assert (Y : mpos (ay c s v) (ax (A:=RealA) c s' (1 - v))).
+  { unfold ax, ay. rewrite Ht. apply cut_swap'; [exact Z|]. apply first_cut_rel; assumption. }
+  rewrite !hddma_step_eq. rewrite Hn.
+  unfold a_drift, a_warn.
+  rewrite (side_swap c _ _ _ _ Ht X Z), (side_swap' c _ _ _ _ Ht Y Z).
+  destruct (ha_min c <=? hn s + 1)%Z.
+  - rewrite (orb_comm (fst (side_d c (ay c s v) (az s v)))).
+    destruct (fst (side_i c (ax c s v) (az s v)) || fst (side_d c (ay c s v) (az s v))).
+    + unfold Mir. cbn [hn hx hy hz hdrift hwarning].
+      repeat split; left; split; reflexivity.
+    + unfold Mir. cbn [hn hx hy hz hdrift hwarning].
+      repeat split; try (right; assumption). apply orb_comm.
+  - unfold Mir. cbn [hn hx hy hz hdrift hwarning]. repeat split; right; assumption.
+Qed.
+
+Lemma Mir_run : forall (c : hddma_cfg RealA) (vs : list R), ha_two c = true ->
+  Mir (arun c vs) (arun c (map (fun x => 1 - x) vs)).
+Proof.
+  intros c vs Ht. induction vs as [|v vs IH] using rev_ind.
+  - apply Mir_init.
+  - rewrite map_app. cbn [map]. rewrite !arun_snoc. apply Mir_step; assumption.
+Qed.
+
+Theorem hddma_mirror : forall (c : hddma_cfg RealA) (vs : list R), ha_two c = true ->
+  hdrift (arun c (map (fun x => 1 - x) vs)) = hdrift (arun c vs) /\
+  hwarning (arun c (map (fun x => 1 - x) vs)) = hwarning (arun c vs).
+Proof.
+  intros c vs Ht. destruct (Mir_run c vs Ht) as (_ & Hd & Hw & _). split; assumption.
+Qed.
+
+(** * (4) A drop is detected exactly as the mirrored rise *)
+Lemma map_repeat' : forall {X Y} (f : X -> Y) (x : X) n, map f (repeat x n) = repeat (f x) n.
+Proof. intros X Y f x n. induction n as [|n IH]; cbn [repeat map]; [reflexivity|]. rewrite IH. reflexivity. Qed.
+
+Lemma map_mirror_01 : forall n k : nat,
+  map (fun x => 1 - x) (repeat 0 n ++ repeat 1 k) = repeat 1 n ++ repeat 0 k.
+Proof.
+  intros n k. rewrite map_app, !map_repeat'. rewrite Rminus_0_r.
+  replace (1 - 1) with 0 by lra. reflexivity.
+Qed.
+
+Theorem hddma_drop_as_rise : forall (c : hddma_cfg RealA) (n k : nat), ha_two c = true ->
+  hdrift (arun c (repeat 1 n ++ repeat 0 k)) = hdrift (arun c (repeat 0 n ++ repeat 1 k)) /\
+  hwarning (arun c (repeat 1 n ++ repeat 0 k)) = hwarning (arun c (repeat 0 n ++ repeat 1 k)).
+Proof.
+  intros c n k Ht. rewrite <- map_mirror_01. apply hddma_mirror. exact Ht.
+Qed.
+
+(** * (5) A sustained rise is detected with an explicit delay bound *)
+Definition drifted (c : hddma_cfg RealA) (vs : list R) : Prop :=
+  exists j, (j <= length vs)%nat /\ hdrift (arun c (firstn j vs)) = true.
+
+Lemma firstn_app_le : forall {T} (l w : list T) k, (k <= length l)%nat -> firstn k (l ++ w) = firstn k l.
+Proof.
+  intros T l w k H. rewrite firstn_app. replace (k - length l)%nat with 0%nat by lia.
+  cbn [firstn]. apply app_nil_r.
+Qed.
+
+Lemma drifted_app : forall c vs ws, drifted c vs -> drifted c (vs ++ ws).
+Proof.
+  intros c vs ws (j & Hj & Hd). exists j. split.
+  - rewrite app_length. lia.
+  - rewrite firstn_app_le by exact Hj. exact Hd.
+Qed.
+
+Lemma drifted_last : forall c vs, hdrift (arun c vs) = true -> drifted c vs.
+Proof. intros c vs H. exists (length vs). split; [apply Nat.le_refl|]. rewrite firstn_all. exact H. Qed.
+
+Lemma repeat_snoc : forall {T} (x : T) n, repeat x (S n) = repeat x n ++ [x].
+Proof.
+  intros T x n. induction n as [|n IH]; [reflexivity|].
+  change (repeat x (S (S n))) with (x :: repeat x (S n)). rewrite IH. reflexivity.
+Qed.
+
+Lemma hb_eq : forall (ad : R) (m : Z),
+  hoeff_bound (A:=RealA) ad m = sqrt (ln (1 / ad) / (2 * IZR m)).
+Proof.
+  intros ad m. unfold hoeff_bound, one. cbn [sqrt ln div ofZ RealA num].
+  rewrite mult_IZR. reflexivity.
+Qed.
+
+Lemma hb_mono : forall L (m : Z), 0 <= L -> (0 < m)%Z ->
+  sqrt (L / (2 * IZR (m + 1))) <= sqrt (L / (2 * IZR m)).
+Proof.
+  intros L m HL Hm. assert (Hp : 0 < IZR m) by (apply IZR_lt; exact Hm).
+  apply sqrt_le_1_alt. rewrite plus_IZR. unfold Rdiv.
+  apply Rmult_le_compat_l; [exact HL|]. apply Rinv_le_contravar; lra.
+Qed.
+
+Lemma no_move : forall n d L, 0 < n -> 0 < d -> 0 <= L -> L / (2 * n) <= 1 ->
+  sqrt (L / (2 * n)) < d / (n + d) + sqrt (L / (2 * (n + d))).
+Proof.
+  intros n d L Hn Hd HL H1.
+  assert (Hq : 0 < d / (n + d)) by (apply Rdiv_lt_0_compat; lra).
+  assert (Eq : n / (n + d) = 1 - d / (n + d)) by (field; lra).
+  assert (Hq' : 0 < n / (n + d)) by (apply Rdiv_lt_0_compat; lra).
+  assert (Hb : 0 <= L / (2 * n)) by (apply Rle_mult_inv_pos; lra).
+  set (e := sqrt (L / (2 * n))). set (r := sqrt (n / (n + d))).
+  assert (Hr0 : 0 < r) by (apply sqrt_lt_R0; exact Hq').
+  assert (Hr1 : r < 1).
+  { rewrite <- sqrt_1. apply sqrt_lt_1_alt. lra. }
+  assert (He1 : e <= 1) by (rewrite <- sqrt_1; apply sqrt_le_1_alt; exact H1).
+  assert (He0 : 0 <= e) by apply sqrt_pos.
+  assert (Er : sqrt (L / (2 * (n + d))) = e * r).
+  { unfold e, r. rewrite <- sqrt_mult; [|exact Hb|lra]. f_equal. field. lra. }
+  assert (Ed : d / (n + d) = 1 - r * r).
+  { unfold r. rewrite sqrt_sqrt by lra. lra. }
+  rewrite Er, Ed.
+  assert (Hm : 0 < (1 - r) * (1 + r - e)) by (apply Rmult_lt_0_compat; lra).
+  lra.
+Qed.
+
+Lemma half_bound : forall n d L, 0 < n -> 0 < d -> 0 <= L ->
+  (1 / n + 1 / d) / 2 * L <= 1 -> L / (2 * n) <= 1.
+Proof.
+  intros n d L Hn Hd HL H.
+  assert (H0 : 0 <= 1 / d / 2 * L).
+  { apply Rmult_le_pos; [|exact HL]. left. apply Rdiv_lt_0_compat; [|lra].
+    apply Rdiv_lt_0_compat; lra. }
+  replace (L / (2 * n)) with ((1 / n + 1 / d) / 2 * L - 1 / d / 2 * L) by (field; lra).
+  lra.
+Qed.
+
+Section Rise.
+  Variable c : hddma_cfg RealA.
+  Hypothesis Ha : 0 < ha_alpha_d c <= 1.
+  Let L := ln (1 / ha_alpha_d c).
+
+  Let HL : 0 <= L.
+  Proof. apply ln_inv_alpha_nonneg. exact Ha. Qed.
+
+  (** during the zeros the cut follows the sample *)
+  Definition Inv1 (j : nat) (s : hddma_st RealA) : Prop :=
+    hn s = Z.of_nat j /\ m_n (hz s) = Z.of_nat j /\ m_mean (hz s) = 0 /\ hx s = hz s.
+
+  Lemma inv1_step : forall j s, Inv1 j s ->
+    hdrift (hddma_step c s 0) = true \/ Inv1 (S j) (hddma_step c s 0).
+  Proof.
+    intros j s (Hn & Hzn & Hzm & Hx).
+    assert (Zn : m_n (az (A:=RealA) s 0) = (Z.of_nat j + 1)%Z).
+    { unfold az, mean_update. cbn [m_n]. rewrite Hzn. reflexivity. }
+    assert (Zm : m_mean (az (A:=RealA) s 0) = 0).
+    { unfold az, mean_update, incr_op. cbn [m_mean add sub div ofZ RealA num]. rewrite Hzm.
+      unfold Rdiv. ring. }
+    assert (X : ax c s 0 = az s 0).
+    { unfold ax, first_cut. rewrite Hx. destruct (m_n (hz s) =? 0)%Z eqn:E; unfold cut_up.
+      - destruct (leb _ _); reflexivity.
+      - destruct (leb _ _) eqn:El; [reflexivity|]. exfalso.
+        cbn [leb add RealA num] in El. apply Rleb_false in El.
+        rewrite Zm, Hzm, !hb_eq, Zn, Hzn in El.
+        apply Z.eqb_neq in E.
+        pose proof (hb_mono L (Z.of_nat j) HL ltac:(lia)) as Hm. fold L in El. lra. }
+    rewrite hddma_step_eq, X.
+    destruct (ha_min c <=? hn s + 1)%Z.
+    - destruct (a_drift c (az s 0) (ay c s 0) (az s 0)); [left; reflexivity|right].
+      unfold Inv1. cbn [hn hx hz]. rewrite Hn, Zn, Zm. repeat split; lia.
+    - right. unfold Inv1. cbn [hn hx hz]. rewrite Hn, Zn, Zm. repeat split; lia.
+  Qed.
+
+  Lemma phase1 : forall j, drifted c (repeat 0 j) \/ Inv1 j (arun c (repeat 0 j)).
+  Proof.
+    induction j as [|j IH].
+    - right. repeat split.
+    - rewrite repeat_snoc. destruct IH as [D|I]; [left; apply drifted_app; exact D|].
+      destruct (inv1_step j _ I) as [D|I'].
+      + left. apply drifted_last. rewrite arun_snoc. exact D.
+      + right. rewrite arun_snoc. exact I'.
+  Qed.
+
+  (** during the ones the cut stays at the [n] zeros *)
+  Variable n : nat.
+  Hypothesis Hn1 : (1 <= n)%nat.
+  Hypothesis HLn : L / (2 * INR n) <= 1.
+
+  Definition Inv2 (i : nat) (s : hddma_st RealA) : Prop :=
+    hn s = Z.of_nat (n + i) /\ m_n (hz s) = Z.of_nat (n + i) /\
+    m_mean (hz s) = INR i / INR (n + i) /\ m_n (hx s) = Z.of_nat n /\ m_mean (hx s) = 0.
+
+  Lemma inv1_inv2 : forall s, Inv1 n s -> Inv2 0 s.
+  Proof.
+    intros s (Hn & Hzn & Hzm & Hx). unfold Inv2. rewrite Hx, Nat.add_0_r.
+    repeat split; try assumption. rewrite Hzm. change (INR 0) with 0. unfold Rdiv. ring.
+  Qed.
+
+  Lemma az_inv2 : forall i s, Inv2 i s ->
+    m_n (az (A:=RealA) s 1) = Z.of_nat (n + S i) /\
+    m_mean (az (A:=RealA) s 1) = INR (S i) / INR (n + S i).
+  Proof.
+    intros i s (Hn & Hzn & Hzm & Hxn & Hxm). unfold az, mean_update, incr_op.
+    cbn [m_n m_mean add sub div ofZ RealA num]. rewrite Hzn, Hzm. split; [lia|].
+    rewrite plus_IZR, <- INR_IZR_INZ, Nat.add_succ_r, !S_INR.
+    assert (Hp : 0 < INR (n + i)) by (apply lt_0_INR; lia).
+    field. lra.
+  Qed.
+
+  Lemma ax_inv2 : forall i s, Inv2 i s -> ax c s 1 = hx s.
+  Proof.
+    intros i s I. destruct (az_inv2 i s I) as [Zn Zm].
+    destruct I as (Hn & Hzn & Hzm & Hxn & Hxm).
+    unfold ax, first_cut. rewrite Hxn.
+    destruct (Z.of_nat n =? 0)%Z eqn:E; [apply Z.eqb_eq in E; lia|].
+    unfold cut_up. destruct (leb _ _) eqn:El; [exfalso|reflexivity].
+    cbn [leb add RealA num] in El. apply Rleb_true in El.
+    rewrite Zm, Hxm, !hb_eq, Zn, Hxn, <- !INR_IZR_INZ, plus_INR in El. fold L in El.
+    assert (Hp : 0 < INR n) by (apply lt_0_INR; lia).
+    assert (Hd : 0 < INR (S i)) by (apply lt_0_INR; lia).
+    pose proof (no_move (INR n) (INR (S i)) L Hp Hd HL HLn). lra.
+  Qed.
+
+  Lemma inv2_step : forall i s, Inv2 i s ->
+    hdrift (hddma_step c s 1) = true \/ Inv2 (S i) (hddma_step c s 1).
+  Proof.
+    intros i s I. destruct (az_inv2 i s I) as [Zn Zm]. pose proof (ax_inv2 i s I) as X.
+    destruct I as (Hn & Hzn & Hzm & Hxn & Hxm).
+    rewrite hddma_step_eq, X.
+    destruct (ha_min c <=? hn s + 1)%Z.
+    - destruct (a_drift c (hx s) (ay c s 1) (az s 1)); [left; reflexivity|right].
+      unfold Inv2. cbn [hn hx hz]. rewrite Hn, Zn, Zm. repeat split; try assumption; lia.
+    - right. unfold Inv2. cbn [hn hx hz]. rewrite Hn, Zn, Zm. repeat split; try assumption; lia.
+  Qed.
+
+  Lemma phase2 : forall i,
+    drifted c (repeat 0 n ++ repeat 1 i) \/ Inv2 i (arun c (repeat 0 n ++ repeat 1 i)).
+  Proof.
+    induction i as [|i IH].
+    - cbn [repeat]. rewrite app_nil_r. destruct (phase1 n) as [D|I]; [left; exact D|right].
+      apply inv1_inv2. exact I.
+    - rewrite repeat_snoc, app_assoc. destruct IH as [D|I]; [left; apply drifted_app; exact D|].
+      destruct (inv2_step i _ I) as [D|I'].
+      + left. apply drifted_last. rewrite arun_snoc. exact D.
+      + right. rewrite arun_snoc. exact I'.
+  Qed.
+
+  Lemma inv2_final : forall i s, Inv2 i s -> (ha_min c <= Z.of_nat (n + S i))%Z ->
+    (1 / INR n + 1 / INR (S i)) / 2 * L <= 1 ->
+    hdrift (hddma_step c s 1) = true.
+  Proof.
+    intros i s I Hmin Hb. destruct (az_inv2 i s I) as [Zn Zm]. pose proof (ax_inv2 i s I) as X.
+    destruct I as (Hn & Hzn & Hzm & Hxn & Hxm).
+    assert (C : check_incr (hx s) (az s 1) (ha_alpha_d c) = true).
+    { pose proof (hddma_rule (hx s) (az s 1) (ha_alpha_d c)) as Rl. cbv zeta in Rl.
+      apply Rl; clear Rl; [rewrite Hxn; lia|rewrite Hxn, Zn; lia|exact Ha|].
+      rewrite Hxn, Hxm, Zn, Zm, <- !INR_IZR_INZ, plus_INR.
+      assert (Hp : 0 < INR n) by (apply lt_0_INR; lia).
+      assert (Hd : 0 < INR (S i)) by (apply lt_0_INR; lia).
+      replace (INR n + INR (S i) - INR n) with (INR (S i)) by ring.
+      replace (((INR n + INR (S i)) * (INR (S i) / (INR n + INR (S i))) - INR n * 0) / INR (S i) - 0)
+        with 1 by (field; lra).
+      apply Rle_trans with (sqrt 1); [|rewrite sqrt_1; lra].
+      apply sqrt_le_1_alt. exact Hb. }
+    rewrite hddma_step_eq, X.
+    replace (ha_min c <=? hn s + 1)%Z with true by (symmetry; apply Z.leb_le; lia).
+    unfold a_drift, side_i, side_cases.
+    replace (m_n (hx s) =? m_n (az s 1))%Z with false
+      by (symmetry; apply Z.eqb_neq; rewrite Hxn, Zn; lia).
+    rewrite C. reflexivity.
+  Qed.
+End Rise.
+
+Theorem hddma_rise_detected : forall (c : hddma_cfg RealA) (n k : nat),
+  0 < ha_alpha_d c <= 1 -> (1 <= n)%nat -> (1 <= k)%nat ->
+  (1 / INR n + 1 / INR k) / 2 * ln (1 / ha_alpha_d c) <= 1 ->
+  (ha_min c <= Z.of_nat (n + k))%Z ->
+  exists j, (j <= n + k)%nat /\ hdrift (arun c (firstn j (repeat 0 n ++ repeat 1 k))) = true.
+Proof.
+  intros c n k Ha Hn Hk Hb Hmin.
+  assert (HL : 0 <= ln (1 / ha_alpha_d c)) by (apply ln_inv_alpha_nonneg; exact Ha).
+  assert (Hpn : 0 < INR n) by (apply lt_0_INR; lia).
+  assert (Hpk : 0 < INR k) by (apply lt_0_INR; lia).
+  pose proof (half_bound (INR n) (INR k) _ Hpn Hpk HL Hb) as HLn.
+  assert (D : drifted c (repeat 0 n ++ repeat 1 k)).
+  { destruct k as [|k']; [lia|].
+    rewrite repeat_snoc, app_assoc.
+    destruct (phase2 c Ha n Hn HLn k') as [D|I]; [apply drifted_app; exact D|].
+    apply drifted_last. rewrite arun_snoc.
+    apply (inv2_final c Ha n Hn HLn k' _ I Hmin Hb). }
+  destruct D as (j & Hj & Hd). exists j. split; [|exact Hd].
+  rewrite app_length, !repeat_length in Hj. exact Hj.
+Qed.
